@@ -8,16 +8,30 @@ type C13Case struct {
 	Variant  string `json:"variant"`
 	Checksum []byte `json:"checksum"` // nil => nil slice
 	Missing  bool   `json:"missing"`  // the command path does not exist
+	// Steps: a history of launches from the same command path that share ONE SecureConfig value
+	// (a host relaunching a plugin, several clients built from one config). Each step names the
+	// file content at that moment: "good" (hashes to Checksum) or "tampered" (good + 2 bytes).
+	Steps       []string `json:"steps,omitempty"`
+	CallerReset bool     `json:"callerReset,omitempty"` // the caller calls Hash.Reset() before each launch
+}
+
+type C13StepObs struct {
+	Err        string `json:"err"`
+	IsMismatch bool   `json:"isMismatch"`
+	Marker     bool   `json:"marker"`
+	ProcessSet bool   `json:"processSet"`
+	FileSum    []byte `json:"fileSum"`
 }
 
 type C13Obs struct {
-	Err          string `json:"err"`
-	IsMismatch   bool   `json:"isMismatch"`
-	IsNoChecksum bool   `json:"isNoChecksum"`
-	IsNoHash     bool   `json:"isNoHash"`
-	Marker       bool   `json:"marker"`
-	ProcessSet   bool   `json:"processSet"` // exec.Cmd.Process != nil after Start
-	FileSum      []byte `json:"fileSum"`    // digest the host computed (for cross-check only)
+	Err          string       `json:"err"`
+	IsMismatch   bool         `json:"isMismatch"`
+	IsNoChecksum bool         `json:"isNoChecksum"`
+	IsNoHash     bool         `json:"isNoHash"`
+	Marker       bool         `json:"marker"`
+	ProcessSet   bool         `json:"processSet"` // exec.Cmd.Process != nil after Start
+	FileSum      []byte       `json:"fileSum"`    // digest the host computed (for cross-check only)
+	Steps        []C13StepObs `json:"steps,omitempty"`
 }
 
 // PRBytes is a deterministic pseudo-random byte stream.
